@@ -42,8 +42,12 @@ func commands(m *mode) []consoleui.Command {
 
 			err := m.view.Lines.Move(from, to)
 			if err != nil {
-				m.view.Lines.SetMark(from, lines.MarkErrMovedFrom)
-				m.view.Lines.SetMark(to, lines.MarkErrMovedTo)
+				if m.view.Lines.ValidIndex(from) {
+					m.view.Lines.SetMark(from, lines.MarkErrMovedFrom)
+				}
+				if m.view.Lines.ValidIndex(to) {
+					m.view.Lines.SetMark(to, lines.MarkErrMovedTo)
+				}
 				return err
 			}
 
@@ -60,6 +64,10 @@ func commands(m *mode) []consoleui.Command {
 		Action: func(_ *consoleui.UI, args ...interface{}) error {
 			l := args[0].(int)
 			m.view.Lines.UnmarkAll()
+
+			if !m.view.Lines.ValidIndex(l) {
+				return fmt.Errorf("not a valid line number: %d", l)
+			}
 
 			block, ok := m.view.Lines.Block(l)
 			if !ok {
